@@ -25,21 +25,28 @@ pub fn cgr_spec(seq: &[u8], s: f64) -> Option<Vec<(f64, f64)>> {
 }
 
 fn run_cgr(recs: &[Vec<u8>], size: usize, threads: usize) -> Result<String, String> {
+    run_cgr_keep(recs, size, threads).0
+}
+
+/// as run_cgr, and also what the output file holds after the call (whatever the call returned)
+fn run_cgr_keep(recs: &[Vec<u8>], size: usize, threads: usize) -> (Result<String, String>, Vec<u8>) {
     let sc = Scratch::new("cgr");
     let inp = sc.path("in.fa");
     let out = sc.path("out.txt");
     write_fasta(&inp, recs);
+    maybe_stale(&out);
     let (i2, o2) = (inp.clone(), out.clone());
     let r = guarded(move || {
         let mut c = composition::cgr::CgrComputer::new(i2, o2, size);
         c.set_threads(threads);
         c.vectorise()
     });
-    match r {
+    let left = std::fs::read(&out).unwrap_or_default();
+    (match r {
         Ok(Ok(())) => std::fs::read_to_string(&out).map_err(|e| format!("cannot read output: {}", e)),
         Ok(Err(e)) => Err(format!("error: {}", e)),
         Err(e) => Err(format!("panic: {}", e)),
-    }
+    }, left)
 }
 
 fn parse_row(line: &str) -> Option<Vec<(f64, f64)>> {
@@ -57,10 +64,26 @@ fn parse_row(line: &str) -> Option<Vec<(f64, f64)>> {
 
 fn c11_batch(recs: &[Vec<u8>], size: usize, threads: usize) -> Option<Vec<(String, String)>> {
     let bad = recs.iter().any(|r| cgr_spec(r, size as f64).is_none());
-    let out = run_cgr(recs, size, threads);
+    let (out, left) = run_cgr_keep(recs, size, threads);
     let mut which = 0usize;
     let why = match out {
-        Err(e) => if bad { String::new() } else { e },          // a record with another byte is refused
+        // a record with another byte is refused, and none of its bases reaches the output: what the file holds
+        // is complete rows of records before it, nothing else
+        Err(e) => if bad {
+            let first_bad = recs.iter().position(|r| cgr_spec(r, size as f64).is_none()).unwrap();
+            let text = String::from_utf8_lossy(&left).to_string();
+            let mut parts: Vec<&str> = text.split('\n').collect();
+            let tail = parts.pop().unwrap_or("");
+            let mut w = String::new();
+            if !tail.is_empty() { which = first_bad; w = format!("refused with an error, yet the output holds a partial row {:?}", &tail[..tail.len().min(60)]); }
+            else if parts.len() > first_bad { which = first_bad; w = format!("refused with an error, yet the output holds {} rows and only {} records precede the refused one", parts.len(), first_bad); }
+            else {
+                for (i, l) in parts.iter().enumerate() {
+                    if parse_row(l) != cgr_spec(&recs[i], size as f64) { which = i; w = format!("refused with an error; row {} left in the output is not the row of record {}", i, i); break; }
+                }
+            }
+            w
+        } else { e },
         Ok(text) => {
             if bad { "a record with a non-nucleotide byte produced output".to_string() } else {
                 let lines: Vec<&str> = text.split('\n').collect();
@@ -148,6 +171,21 @@ pub fn c11(o: &Opts) -> Outcome {
             if let Some(w) = c11_batch(&[s], 8, 1) { return Outcome { cases, witness: Some(w) }; }
         }
     }
+    // an output path that already holds a longer result of an earlier run
+    {
+        let recs: Vec<Vec<u8>> = vec![b"ACGTTGCA".to_vec(), b"GGATC".to_vec()];
+        cases += 1;
+        std::env::set_var("VERIF_STALE_OUTPUT", "1");
+        let w = c11_batch(&recs, 8, 2);
+        std::env::remove_var("VERIF_STALE_OUTPUT");
+        if let Some(mut w) = w { w.push(("stale_output".into(), "the output file existed before the run, holding 400 longer lines".into())); return Outcome { cases, witness: Some(w) }; }
+    }
+    // rejection among ordinary records, for several worker counts
+    for threads in [1usize, 2, 4] {
+        let recs: Vec<Vec<u8>> = vec![b"ACGT".to_vec(), b"GGTTA".to_vec(), b"ACGTNACGT".to_vec(), b"TTT".to_vec()];
+        cases += recs.len() as u64;
+        if let Some(w) = c11_batch(&recs, 8, threads) { return Outcome { cases, witness: Some(w) }; }
+    }
     Outcome { cases, witness: None }
 }
 
@@ -157,6 +195,7 @@ pub fn c12_batch(recs: &[Vec<u8>], k: usize, size: usize, norm: bool, threads: u
     let inp = sc.path("in.fa");
     let out = sc.path("out.txt");
     write_fasta(&inp, recs);
+    maybe_stale(&out);
     let (i2, o2) = (inp.clone(), out.clone());
     let r = guarded(move || {
         let mut c = composition::oligocgr::OligoCgrComputer::new(i2, o2, k, size);
@@ -208,6 +247,28 @@ pub fn c12(o: &Opts) -> Outcome {
                 cases += recs.len() as u64;
                 if let Some(w) = c12_batch(&recs, k, size, norm, 3) { return Outcome { cases, witness: Some(w) }; }
             }
+        }
+    }
+    // counts beyond 2^24 (where a single-precision accumulator stops counting): thorough tier only (17 M bases)
+    if o.thorough {
+        let big = vec![vec![b'A'; 17_000_000], b"ACGTAC".to_vec()];
+        for norm in [false, true] {
+            cases += 1;
+            if let Some(mut w) = c12_batch(&big, 1, 8, norm, 2) {
+                for kv in w.iter_mut() { if kv.0 == "seq" { kv.1 = "<record 0: 17000000 x A; record 1: ACGTAC>".into(); } }
+                return Outcome { cases, witness: Some(w) };
+            }
+        }
+    }
+    // an output path that already holds a longer result of an earlier run
+    {
+        let recs: Vec<Vec<u8>> = vec![b"ACGTTGCA".to_vec(), b"GGATC".to_vec()];
+        for norm in [true, false] {
+            cases += 1;
+            std::env::set_var("VERIF_STALE_OUTPUT", "1");
+            let w = c12_batch(&recs, 2, 8, norm, 2);
+            std::env::remove_var("VERIF_STALE_OUTPUT");
+            if let Some(mut w) = w { w.push(("stale_output".into(), "the output file existed before the run, holding 400 longer lines".into())); return Outcome { cases, witness: Some(w) }; }
         }
     }
     Outcome { cases, witness: None }
